@@ -10,7 +10,7 @@ RULE = ("(a) kind 'json': random JSON documents (nesting <= 5; strings over quot
         "astral; integer/float literals incl. 64-bit boundaries) rendered compact, indented and with random extra whitespace; "
         "oracle = equality with the data the document denotes (Spec.C17.expected). (b) kind 'parse': exhaustive short strings over "
         "the scanner's special characters under every parse.Config (valid and invalid) and random flag-style values; compared with the "
-        "model. Non-trivial: a document with at least one container or escape, or a string with a special character. Distinct by "
+        "model. Plus: parse.Value after other uses of the library in the same process (splices read under IgnoreCommas that fail inside the parser), with a check that package-level parser state is unchanged. Non-trivial: a document with at least one container or escape, or a string with a special character. Distinct by "
         "(layout, shape class, config, outcome).")
 TRUSTED_BASE = ["Lean 4 kernel", "extractor: stop sets, bool keywords, parse.*Config literals",
                 "strconv.ParseFloat as a parameter (Stdlib.parseFloat; answered by the real stdlib during the run)",
